@@ -245,3 +245,113 @@ B('k18_try_around_the_whole_loop', ['C18'], 'R18.c', (META, GMAIN, '''        tr
             full_ctx['exc_content'] = repr(e)
         return full_ctx
 '''))
+B('k18_route_row_keeps_renamed_route', ['C18'], 'R18.a', (META, GRIS, '''def _route_row(rt):
+    return {'handle': rt,
+            'url_pattern': rt.pattern,
+            'url_regex_pattern': rt.regex.pattern,
+            'endpoint': get_endpoint_info(rt),
+            'render': get_render_info(rt),
+            'args': get_route_arg_info(rt)}
+
+
+def get_route_infos(_application):
+    return [_route_row(bound) for bound in _application.routes
+            if not isinstance(bound, NullRoute)]
+'''))
+B('k18_resources_in_lambda', ['C18'], 'R18.a', (META, "        return {'resources': get_resource_info(_application)}",
+                                                "        return {'resources': get_resource_info(_application),\n                'first': glom(None, Call(lambda: repr(sorted(_application.resources.values())[:1])), skip_exc=Exception)}"))
+
+# ---- further shapes of the same listings ----------------------------------------------------------------------------
+T('k18_helper_takes_pair', ['C18'], (META, GRI, '''def _resource_row(item):
+    name, value = item
+    if 'secret' in name:
+        return {'key': name, 'value': '[REDACTED]'}
+    return {'key': name, 'value': _trunc(repr(value))}
+
+
+def get_resource_info(_application):
+    return [_resource_row(item) for item in _application.resources.items()]
+'''))
+T('k18_helper_returns_row_ifexp', ['C18'], (META, GRI, '''HIDDEN = '[REDACTED]'
+
+
+def _resource_row(value, name):
+    shown = HIDDEN if 'secret' in name else _trunc(repr(value))
+    return dict(key=name, value=shown)
+
+
+def get_resource_info(_application):
+    rows = []
+    for name, value in _application.resources.items():
+        rows += [_resource_row(name=name, value=value)]
+    return rows
+'''))
+T('k18_helper_ifexp_return', ['C18'], (META, GRI, '''def _shown(name, value):
+    return '[REDACTED]' if 'secret' in name else _trunc(repr(value))
+
+
+def get_resource_info(_application):
+    return [{'key': k, 'value': _shown(k, v)} for (k, v) in _application.resources.items()]
+'''))
+T('k18_lowered_name_temp', ['C18'], (META, "        if 'secret' in key:\n            trunc_val = '[REDACTED]'", "        lowered = key.lower()\n        if 'secret' in lowered:\n            trunc_val = '[REDACTED]'"))
+T('k18_peripherals_alias_enumerate', ['C18'], (META, "        for peri in self.peripherals:\n            try:\n                peri_ctx = inject(peri.get_context, kwargs)",
+                                               "        peris = self.peripherals\n        for _i, peri in enumerate(peris):\n            try:\n                peri_ctx = inject(peri.get_context, kwargs)"))
+T('k18_placeholder_via_dict_call', ['C18'], (META, "                peri_ctx = {'exc_content': repr(e)}", "                peri_ctx = dict(exc_content=repr(e))"))
+T('k18_mw_rows_by_map', ['C18'], (META, GMI, _MWROW.replace("    return [_mw_row(mw) for mw in _application.middlewares]", "    return list(map(_mw_row, _application.middlewares))")))
+B('k18_mw_rows_by_map_dumps_vars', ['C18'], 'R18.b', (META, GMI, _MWROW.replace("    return [_mw_row(mw) for mw in _application.middlewares]", "    return list(map(_mw_row, _application.middlewares))")
+                                                      .replace("            'repr': repr(mw)}", "            'repr': repr(mw),\n            'attrs': repr(mw.__dict__)}")))
+B('k18_pair_helper_shows_value', ['C18'], 'R18.a', (META, GRI, '''def _resource_row(item):
+    name, value = item
+    return {'key': name, 'value': '[REDACTED]' if 'secret' in name else _trunc(repr(value)), 'type': type(value).__name__}
+
+
+def get_resource_info(_application):
+    return [_resource_row(item) for item in _application.resources.items()]
+'''))
+T('k18_bound_method_named_first', ['C18'], (META, "                peri_ctx = inject(peri.get_context, kwargs)", "                get_ctx = peri.get_context\n                peri_ctx = inject(get_ctx, kwargs)"))
+T('k18_render_section_helpers', ['C18'], (META, '''            cur = {'title': peri.title,
+                   'group_key': peri.group_key}
+            try:
+                cur_context = context[peri.group_key]
+                kwargs = {'context': cur_context}
+                cur['content'] = inject(peri.render_main_page_html, kwargs)
+
+                prev_exc = cur_context.get('exc_content')
+                if prev_exc:
+                    cur['exc_content'] = prev_exc
+            except Exception as e:
+                cur['exc_content'] = repr(e)
+            try:
+                cur_general_items = inject(peri.get_general_items, kwargs)
+                cur_general_items = _process_items(cur_general_items)
+            except Exception as e:
+                cur_general_items = []
+            context['sections'].append(cur)
+            general_items.extend(cur_general_items)
+        return self._main_page_render(context)
+''', '''            cur, kwargs = self.render_section(peri, context)
+            context['sections'].append(cur)
+            general_items.extend(self.section_general_items(peri, kwargs))
+        return self._main_page_render(context)
+
+    def render_section(self, peri, context):
+        cur = {'title': peri.title,
+               'group_key': peri.group_key}
+        kwargs = None
+        try:
+            cur_context = context[peri.group_key]
+            kwargs = {'context': cur_context}
+            cur['content'] = inject(peri.render_main_page_html, kwargs)
+            prev_exc = cur_context.get('exc_content')
+            if prev_exc:
+                cur['exc_content'] = prev_exc
+        except Exception as e:
+            cur['exc_content'] = repr(e)
+        return cur, kwargs
+
+    def section_general_items(self, peri, kwargs):
+        try:
+            return _process_items(inject(peri.get_general_items, kwargs))
+        except Exception:
+            return []
+'''))
